@@ -384,6 +384,45 @@ func runC07(c *fw.Ctx) {
 	for i := 0; i < c.Pick(600, 20000); i++ {
 		c.Case(func(k *fw.K) { c07RearmedSibling(k) })
 	}
+	// ---- the SAME tensor object at both operand positions (x.Dot(x), x.Mul(x), x.MatMul(x) ...: a squared norm, a Gram matrix): expansion
+	// factor 1 on both sides, the operand receives the sum of its two shares ----
+	for i := 0; i < c.Pick(400, 8000); i++ {
+		c.Case(func(k *fw.K) {
+			r := k.Rng
+			op := []string{"dot", "mul", "add", "sub", "div", "matmul"}[r.Intn(6)]
+			shape := RandShape(r, 1, 3, 3)
+			if op == "matmul" {
+				n := 1 + r.Intn(3)
+				shape = append(RandShape(r, 0, 1, 2), n, n)
+			}
+			x := Shuffled(r, Unique(r, shape, 0.3, 2))
+			p := ref.Prog{{Op: "leaf", Shape: shape, Data: x.Data, Tracked: true}, {Op: op, In: []int{0, 0}}}
+			vals, err := p.Eval()
+			if err != nil {
+				k.Failf("harness: %v", err)
+				return
+			}
+			g := randG(k, vals[1].Shape)
+			p = append(p, ref.Instr{Op: "leaf", Shape: g.Shape, Data: g.Data}, ref.Instr{Op: "mul", In: []int{1, 2}})
+			if vals, err = p.Eval(); err != nil {
+				k.Failf("harness: %v", err)
+				return
+			}
+			k.Case = c01case{Family: "one tensor object at both operand positions", Prog: p, Roots: []int{3}}
+			k.Key("same-object-twice/%s/%s", op, shapeKey(shape))
+			k.Count("same_object_twice_cases", 1)
+			var ts []tensor.Tensor
+			if pn := call(func() {
+				if ts, err = rt.Run(p); err == nil {
+					err = tensor.BackPropagate(ts[3])
+				}
+			}); pn != nil || err != nil {
+				k.Failf("x.%s(x): panic=%v err=%v", op, pn, err)
+				return
+			}
+			checkGradsClassified(k, ts, p, vals, 3, nil, fmt.Sprintf("x.%s(x) on shape %v (the same object at both positions)", op, shape))
+		})
+	}
 	// ---- sampled pairs with sizes up to 7 ----
 	for i := 0; i < c.Pick(2000, 60000); i++ {
 		c.Case(func(k *fw.K) {
